@@ -110,7 +110,9 @@ type tcWorld struct {
 
 func tcNewWorld() *tcWorld {
 	w := &tcWorld{ctx: context.Background(), b: &tcBus{}, tpt: &tcTransport{id: tcPeers[0]}}
-	w.c = NewController(logrus.NewEntry(logrus.New()), w.b, &controller.Info{Id: "tc"}, tcPeers[0], false, nil)
+	// the controller is configured without a peer-id constraint (it uses whichever peer the bus has): the
+	// resolved identity is c.peerID, set below as Execute does
+	w.c = NewController(logrus.NewEntry(logrus.New()), w.b, &controller.Info{Id: "tc"}, "", false, nil)
 	w.c.execCtx = w.ctx
 	w.c.peerID = tcPeers[0]
 	w.c.tpt = w.tpt
